@@ -322,7 +322,7 @@ func init() {
 // degenerateFam says whether a family is a designated degenerate one.
 func degenerateFam(f string) bool {
 	switch f {
-	case "zeros", "ones", "alt", "singlerun", "sparse", "periodic", "byteperiodic", "walk", "transition", "lfsr", "longruns", "maurergap", "maurersparse":
+	case "zeros", "ones", "alt", "singlerun", "sparse", "periodic", "byteperiodic", "walk", "transition", "lfsr", "longruns", "maurergap", "maurersparse", "debruijn", "counter":
 		return true
 	}
 	return false
